@@ -128,7 +128,14 @@ func scanJag(c *core.Ctx) []ob {
 			n++
 			pos := c.Rel(outer.Pos())
 			// (a) the bound of the j loop depends on i
-			if lj.bound != nil && mentionsIdentObj(info, lj.bound, io) {
+			// (a') the column loop ranges over the row itself: the value variable of the row loop
+			rowVal := false
+			if rs, ok := li.node.(*ast.RangeStmt); ok && rs.Value != nil && lj.bound != nil {
+				if vo := identObj(info, rs.Value); vo != nil && mentionsIdentObj(info, lj.bound, vo) {
+					rowVal = true
+				}
+			}
+			if lj.bound != nil && (rowVal || mentionsIdentObj(info, lj.bound, io)) {
 				out = append(out, okOb("JAG", key, pos, fmt.Sprintf("column bound %s depends on the row index", exprString(lj.bound)), true))
 				return true
 			}
@@ -152,6 +159,45 @@ func scanJag(c *core.Ctx) []ob {
 				}
 				if _, ok := p.(*ast.FuncDecl); ok {
 					break
+				}
+			}
+			if !guarded {
+				// the skipping form: `if j >= f(i) { continue }` in front of the access, in an enclosing block
+				var child ast.Node = outer
+				for p := pm[child]; p != nil && !guarded; child, p = p, pm[p] {
+					blk, ok := p.(*ast.BlockStmt)
+					if ok {
+						for _, st := range blk.List {
+							if ast.Node(st) == child {
+								break
+							}
+							is, ok := st.(*ast.IfStmt)
+							if !ok || len(is.Body.List) == 0 {
+								continue
+							}
+							leaves := false
+							switch l := is.Body.List[len(is.Body.List)-1].(type) {
+							case *ast.BranchStmt:
+								leaves = l.Tok == token.CONTINUE || l.Tok == token.BREAK
+							case *ast.ReturnStmt:
+								leaves = true
+							}
+							if !leaves {
+								continue
+							}
+							if be, ok := unparen(is.Cond).(*ast.BinaryExpr); ok {
+								if (be.Op == token.GEQ || be.Op == token.GTR) && identObj(info, be.X) == jo && mentionsIdentObj(info, be.Y, io) {
+									guarded = true
+								}
+								if (be.Op == token.LEQ || be.Op == token.LSS) && identObj(info, be.Y) == jo && mentionsIdentObj(info, be.X, io) {
+									guarded = true
+								}
+							}
+						}
+					}
+					if _, ok := p.(*ast.FuncDecl); ok {
+						break
+					}
 				}
 			}
 			if guarded {
